@@ -126,13 +126,15 @@ package libmem
 //@   ensures[C06,C07] forall id string :: id != req.id ==> (id in result) == old(id in a.journal.updates) && result[id] == old(a.journal.updates[id])
 
 // Requests known to the allocator are the ones stored in the zones.
-//@ pure rwf(a *Allocator) bool = forall z NodeMask, id string :: z in a.zones && id in a.zones[z].users ==> id in a.requests && a.requests[id] == a.zones[z].users[id]
+//@ pure rwf(a *Allocator) bool = forall z NodeMask, id string :: z in a.zones && id in a.zones[z].users ==> id in a.requests && a.requests[id] == a.zones[z].users[id] && a.zones[z].users[id].zone == z
 
 //@ func (*Allocator).revertJournal ints=bv64
 //@   requires awf(a) && rwf(a)
 //@   requires a.journal != nil ==> forall id string :: id in a.journal.reverts ==> id in a.users
 //@   requires req != nil ==> req.id in a.requests
+//@   requires req != nil && a.journal != nil ==> !origd(a, req.id)
 //@   ensures[C06] a.journal == nil && awf(a) && result1 == nil
+//@   ensures[C06] rwf(a)
 //@   ensures[C06] old(a.journal) == nil ==> result0 == nil && dom(a.users) == old(dom(a.users)) && vals(a.users) == old(vals(a.users)) && dom(a.requests) == old(dom(a.requests)) && vals(a.requests) == old(vals(a.requests))
 //@   ensures[C06] old(a.journal) != nil ==> forall id string :: (id in a.users) == old(origd(a, id)) && a.users[id] == old(origv(a, id))
 //@   ensures[C06] old(a.journal) != nil ==> result0 == old(a.journal.updates) && dom(result0) == old(dom(a.journal.updates)) && vals(result0) == old(vals(a.journal.updates))
@@ -145,7 +147,7 @@ package libmem
 //@   invariant forall id string :: seen(id) ==> id in j.reverts
 //@   invariant forall id string :: seen(id) ==> (id in a.users) == (j.reverts[id] != 0) && a.users[id] == j.reverts[id]
 //@   invariant forall id string :: !seen(id) ==> (id in a.users) == old(id in a.users) && a.users[id] == old(a.users[id])
-//@   invariant forall z NodeMask, id string :: z in a.zones && id in a.zones[z].users ==> id in a.requests && a.requests[id] == a.zones[z].users[id]
+//@   invariant forall z NodeMask, id string :: z in a.zones && id in a.zones[z].users ==> id in a.requests && a.requests[id] == a.zones[z].users[id] && a.zones[z].users[id].zone == z
 
 // ---- transactions -----------------------------------------------------------------------------------------
 
@@ -210,6 +212,7 @@ package libmem
 
 //@ func (*Allocator).handleOvercommit ints=bv64
 //@   requires txn(a) && nocustom(a)
+//@   modifies maps map[string]NodeMask, maps map[string]*Request, maps map[NodeMask]*Zone, comp Request.zone
 //@   ensures[C06,C07] txpres(a)
 
 // ---- request validation and initial placement (frames for C06; placement rules are C07) ---------------
@@ -231,3 +234,26 @@ package libmem
 //@   ensures[C07] (req.zone & old(req.zone)) == old(req.zone)
 //@ loop 0 in (*Allocator).ensureNormalMemory at "a.expand(zone, types)"
 //@   invariant (zone & old(req.zone)) == old(req.zone) && req.zone == old(req.zone)
+
+// ---- allocate / realloc / release (internal) -----------------------------------------------------------------
+
+//@ pure idle(a *Allocator) bool = awf(a) && rwf(a) && a.journal == nil && nocustom(a) && a.masks != nil
+
+//@ func (*Allocator).allocate ints=bv64
+//@   requires idle(a) && req != nil
+//@   ensures[C06] awf(a) && rwf(a) && nocustom(a) && a.masks == old(a.masks) && a.version == old(a.version)
+//@   ensures[C06] retErr != nil ==> a.journal == nil && dom(a.users) == old(dom(a.users)) && vals(a.users) == old(vals(a.users)) &&
+//@                                 dom(a.requests) == old(dom(a.requests)) && vals(a.requests) == old(vals(a.requests))
+//@   ensures[C06] retErr == nil ==> a.journal != nil && jassigned(a) && req.id in a.users && a.users[req.id] == req.zone && !old(req.id in a.requests) && !old(req.id in a.users) &&
+//@                                 dom(a.requests) == upd(old(dom(a.requests)), req.id, true) && vals(a.requests) == upd(old(vals(a.requests)), req.id, req)
+//@   ensures[C06] retErr == nil ==> forall id string :: origd(a, id) == old(id in a.users) && origv(a, id) == old(a.users[id])
+//@   ensures[C07] retErr == nil ==> forall id string :: old(id in a.users) ==> id in a.users && (a.users[id] & old(a.users[id])) == old(a.users[id])
+//@   ensures[C07] retErr == nil ==> (req.zone & a.masks.nodes.normal) != 0
+
+//@ func (*Allocator).release ints=bv64
+//@   requires idle(a) && req != nil && req.id in a.requests
+//@   ensures[C06] awf(a) && rwf(a) && a.journal == nil
+//@   ensures[C06] result == nil ==> old(req.id in a.users) && a.version == old(a.version) + 1
+//@   ensures[C06] result == nil ==> dom(a.users) == upd(old(dom(a.users)), req.id, false) && vals(a.users) == upd(old(vals(a.users)), req.id, 0)
+//@   ensures[C06] result == nil ==> dom(a.requests) == upd(old(dom(a.requests)), req.id, false) && vals(a.requests) == upd(old(vals(a.requests)), req.id, nil)
+//@   ensures[C06] result != nil ==> dom(a.users) == old(dom(a.users)) && vals(a.users) == old(vals(a.users)) && dom(a.requests) == old(dom(a.requests)) && vals(a.requests) == old(vals(a.requests)) && a.version == old(a.version)
